@@ -79,6 +79,16 @@ def atom_facts(expr: ast.expr, pol: bool) -> list[Fact]:
         op, left, right = expr.ops[0], expr.left, expr.comparators[0]
         txt = ast.unparse(expr)
         out = [(txt, pol)]
+        if any(isinstance(x, ast.NamedExpr) for x in ast.walk(left)) and not isinstance(left, ast.NamedExpr):
+            # len(xs := f()) == 1  also states  len(xs) == 1
+            import copy
+
+            class _W(ast.NodeTransformer):
+                def visit_NamedExpr(self, node):
+                    return node.target
+
+            stripped = ast.Compare(left=_W().visit(copy.deepcopy(left)), ops=[op], comparators=[right])
+            out += atom_facts(ast.fix_missing_locations(stripped), pol)
         # canonical complementary spellings so that rules can ask one question
         flip = {ast.Is: ast.IsNot, ast.IsNot: ast.Is, ast.In: ast.NotIn, ast.NotIn: ast.In, ast.Eq: ast.NotEq,
                 ast.NotEq: ast.Eq, ast.Lt: ast.GtE, ast.GtE: ast.Lt, ast.Gt: ast.LtE, ast.LtE: ast.Gt}
